@@ -14,18 +14,18 @@ import (
 
 // C10 — in-call notifications arrive complete, in order and before the result.
 //
-//   R-one-id-source    everything that writes SSE events to one POST response uses one sseutil.Writer
-//                      (one id counter): the notification sender does not allocate its own
-//   R-id-unique        an event id incorporates the result of an atomic add on the writer's counter
-//   R-sender-in-ctx    on the SSE branch the context given to the dispatcher carries a sender built around the
-//                      POST's own ResponseWriter — unconditionally; on the JSON branch the no-op sender
-//   R-response-last    the responder is invoked after the dispatcher returned (same goroutine)
-//   R-client-drain     the per-call SSE reader returns a result before end of stream only when no handler is
-//                      registered; handlers are invoked synchronously in arrival order
-//   R-unbounded-frames the per-call SSE reader has no practical line-length limit (a notification is one line)
-//   R-params-keys      NotificationParams' MarshalJSON and UnmarshalJSON single out the same member ("_meta")
-//   R-frame-verbatim   no Fprintf to a stream with a computed format string
-//   (R-client-drain also requires that the function returning the answer reads the stream itself)
+//	R-one-id-source    everything that writes SSE events to one POST response uses one sseutil.Writer
+//	                   (one id counter): the notification sender does not allocate its own
+//	R-id-unique        an event id incorporates the result of an atomic add on the writer's counter
+//	R-sender-in-ctx    on the SSE branch the context given to the dispatcher carries a sender built around the
+//	                   POST's own ResponseWriter — unconditionally; on the JSON branch the no-op sender
+//	R-response-last    the responder is invoked after the dispatcher returned (same goroutine)
+//	R-client-drain     the per-call SSE reader returns a result before end of stream only when no handler is
+//	                   registered; handlers are invoked synchronously in arrival order
+//	R-unbounded-frames the per-call SSE reader has no practical line-length limit (a notification is one line)
+//	R-params-keys      NotificationParams' MarshalJSON and UnmarshalJSON single out the same member ("_meta")
+//	R-frame-verbatim   no Fprintf to a stream with a computed format string
+//	(R-client-drain also requires that the function returning the answer reads the stream itself)
 func init() { Registry["C10"] = checkC10 }
 
 const sseutilPkg = ir.RootPath + "/internal/sseutil"
